@@ -119,9 +119,41 @@ def _interp(ctx, cls: str, q: str, out: Scalings, depth: int, self_is_subject: b
             return True
         return False
 
+    def replace_call(st):
+        """`replace(S, f=<S.f scaled>, ..)` (dataclasses.replace) on a subject S, returned or bound: every keyword is the store
+        `S.f = <value>` on the copy it makes — a None-guard around the value (`None if S.f is None else S.f / by`) is looked through"""
+        v = st.value if isinstance(st, (ast.Return, ast.Assign)) else None
+        if not (isinstance(v, ast.Call) and call_name(v) == "replace" and len(v.args) == 1 and is_subject(v.args[0]) and v.keywords and
+                all(k.arg for k in v.keywords)):
+            return False
+        r_ = M.resolve(fn.mod, "replace") if isinstance(v.func, ast.Name) else None
+        if isinstance(v.func, ast.Name) and not (r_ and r_[0] == "external" and r_[1].startswith("dataclasses")):
+            return False
+        if isinstance(v.func, ast.Attribute) and unparse(v.func.value) != "dataclasses":
+            return False
+        subj = v.args[0].id
+        for k in v.keywords:
+            e = k.value
+            if isinstance(e, ast.IfExp):
+                none_a, none_b = isinstance(e.body, ast.Constant) and e.body.value is None, isinstance(e.orelse, ast.Constant) and e.orelse.value is None
+                if none_a != none_b and f"{subj}.{k.arg}" in unparse(e.test) and "None" in unparse(e.test):
+                    e = e.orelse if none_a else e.body
+                    if not hasattr(out, "guarded"):
+                        out.guarded = set()
+                    out.guarded.add(k.arg)          # scaled only when it is not the sentinel
+            st2 = ast.copy_location(ast.Assign(targets=[ast.Attribute(value=ast.Name(id=subj, ctx=ast.Load()), attr=k.arg, ctx=ast.Store())], value=e), st)
+            ast.fix_missing_locations(st2)
+            if not handle_scaling(st2, [], {}):
+                out.field_ops[k.arg] = ("other", st, where)
+        if isinstance(st, ast.Assign) and isinstance(st.targets[0], ast.Name):
+            subject.add(st.targets[0].id)
+        return True
+
     def run(stmts, guard_stack, loopvars):
         for st in stmts:
             if isinstance(st, ast.Expr) and isinstance(st.value, ast.Constant):
+                continue
+            if isinstance(st, (ast.Return, ast.Assign)) and replace_call(st):
                 continue
             if isinstance(st, (ast.Assign, ast.AugAssign)):
                 if handle_scaling(st, guard_stack, loopvars):
